@@ -66,6 +66,9 @@ def grid_with_domains(name):
     elif name == "screen3":
         v, e = SG.screen(3)
         di = np.array([1 + (i % 5 in (0, 1)) + (i > 12) for i in range(18)], dtype="uint32")
+    elif name == "two_tets_face":
+        v, e = SG.two_tets_face()
+        di = np.array([1, 1, 1, 3, 2, 2, 2], dtype="uint32")
     else:
         raise KeyError(name)
     return SG.make_grid(v, e, di)
